@@ -55,7 +55,7 @@ def is_private_event(ev):
     k = ev[0]
     if k == "newtable":
         return True
-    if k in ("read", "probe", "init", "calc", "mutate", "mutate_walk", "formula", "mix", "calc_str"):
+    if k in ("read", "probe", "init", "calc", "mutate", "mutate_walk", "formula", "mix", "calc_str", "readback"):
         return ev[1] != "public"
     if k in ("change_table", "change_atom"):
         return ev[1] != "public" or ev[3] != "public"
@@ -66,6 +66,25 @@ def is_private_event(ev):
     if k == "load":
         return len(ev) > 2 and ev[2] != "public"
     return False
+
+
+def private_tables_of(ev):
+    """Names of the private tables an event involves."""
+    k = ev[0]
+    names = []
+    if k == "newtable":
+        names = [ev[1]]
+    elif k in ("read", "probe", "init", "calc", "mutate", "mutate_walk", "formula", "mix", "calc_str", "readback"):
+        names = [ev[1]]
+    elif k in ("change_table", "change_atom"):
+        names = [ev[1], ev[3]]
+    elif k == "formula_reuse":
+        names = [ev[1], ev[4]]
+    elif k in ("dump", "dump_formula"):
+        names = [ev[2]]
+    elif k == "load" and len(ev) > 2:
+        names = [ev[2]]
+    return {n for n in names if n not in ("public", None)}
 
 
 class Claims(object):
@@ -125,6 +144,11 @@ class Claims(object):
         self.tainted.add((tbl, g))
         for d in dependents(g):
             self.tainted.add((tbl, d))
+
+    def initialised(self, tbl):
+        """Groups whose prerequisites were all initialised on tbl, customised or not."""
+        return [g for g in E.PUBLIC_GROUPS if g in PREREQ
+                and all(self.status.get((tbl, n)) == "init_ok" for n in PREREQ[g])]
 
     def claimed(self, tbl):
         out = []
